@@ -1,5 +1,6 @@
 (* C07/Driver.v — entry points of the correspondence run (extracted to OCaml). *)
-From RM Require Import C07.Model C07.Text C07.Walker C07.WalkerFd C06.Driver.
+From RM Require Import C07.Model C07.Text C07.Walker C07.WalkerFd C07.Source C06.Driver.
+From RM Require Import Gen.C07WinEval.
 From RM Require C09.Grammar.
 Open Scope Z_scope.
 
@@ -22,17 +23,25 @@ Fixpoint build_sym (l : list rec) (f : symfile) : symfile :=
       build_sym r (mkSym (sf_framedata f) (sf_fpo f) (Some (mkCfi (a, rules) sz [])))
   end.
 
-Definition run_mock7 (lookup gcps : Z) (hasgc : bool) (regs : list (bytes * Z)) (membase : Z) (mem : bytes)
+(* Every front-end is parametrised in the function standing for SymbolFile::walk_frame: the run evaluates each case with
+   the HAND-WRITTEN model (walk_frame, the one the older theorems are stated about) and with the model COMPILED from
+   walker.rs / mod.rs (Source.src_walk_frame over Gen/C07WinEval.v, regenerated on every run); ocaml/c07/main.ml prints
+   a `D;;` answer when they differ, so the compiled model, the hand-written model and the real code are compared per
+   case.  c07_driver_source_agrees (Properties.v) proves the two instances equal for all inputs. *)
+Definition wf_mock := wops mstate -> profile -> env -> symfile -> mstate -> outcome (option mstate).
+Definition wf_real := wops rstate -> profile -> env -> symfile -> rstate -> outcome (option rstate).
+
+Definition run_mock7_with (wf : wf_mock) (lookup gcps : Z) (hasgc : bool) (regs : list (bytes * Z)) (membase : Z) (mem : bytes)
                      (recs : list rec) (names : list bytes) : c06_out :=
   let E := mock_env 4 lookup regs membase mem hasgc gcps in
-  match walk_frame (mock_ops 4) Debug E (build_sym recs (mkSym [] [] None)) m_init with
+  match wf (mock_ops 4) Debug E (build_sym recs (mkSym [] [] None)) m_init with
   | Ret (Some s) => observe_mock names s
   | Ret None => out_none
   | _ => out_panic
   end.
 
 (* x86 walk_stack step from a context frame (no frame below it); module base 0x40000000 *)
-Definition run_real7 (ctx : list (bytes * Z)) (valid : option (list bytes))
+Definition run_real7_with (wf : wf_real) (ctx : list (bytes * Z)) (valid : option (list bytes))
                      (stackbase : Z) (stack : bytes) (recs : list rec) : c06_out :=
   let a := x86 in
   let ip := match assoc (a_ip a) ctx with Some v => v | None => 0 end in
@@ -41,7 +50,7 @@ Definition run_real7 (ctx : list (bytes * Z)) (valid : option (list bytes))
   if negb sp_valid || (ip <? 1073741824) || (1073741824 + 65536 <=? ip) then out_none else
   (* context frame: the frame list is just the callee; has_grand_callee / parameter size derived as in front-end F *)
   let E := frames_env (real_callee a ctx valid) (mem_read 4 stackbase stack) (ip - 1073741824) [] (mkSF None) in
-  match walk_frame (real_ops a) Debug E (build_sym recs (mkSym [] [] None)) (real_init a ctx valid) with
+  match wf (real_ops a) Debug E (build_sym recs (mkSym [] [] None)) (real_init a ctx valid) with
   | Ret (Some s) =>
       match post_real 0 a sp s with
       | Some s1 => Build_c06_out 1 None None (observe_real a s1) []
@@ -50,6 +59,11 @@ Definition run_real7 (ctx : list (bytes * Z)) (valid : option (list bytes))
   | Ret None => out_none
   | _ => out_panic
   end.
+
+Definition run_mock7 := run_mock7_with (@walk_frame mstate).
+Definition run_mock7_src := run_mock7_with (@src_walk_frame mstate).
+Definition run_real7 := run_real7_with (@walk_frame rstate).
+Definition run_real7_src := run_real7_with (@src_walk_frame rstate).
 
 (* ---- the same two front-ends, starting from the TEXT of the symbol file (C07/Text.v) ---- *)
 Definition out_rejected := Build_c06_out 4 None None [] [].
@@ -102,14 +116,14 @@ Definition frames_pre (below : list (option Z)) (ctx : list (bytes * Z)) (valid 
   if negb sp_valid || negb sp_in_stack || (instr <? 1073741824) || (1073741824 + 65536 <=? instr) then None
   else Some (instr - 1073741824, sp).
 
-Definition run_frames7 (below : list (option Z)) (ctx : list (bytes * Z)) (valid : option (list bytes))
+Definition run_frames7_with (wf : wf_real) (below : list (option Z)) (ctx : list (bytes * Z)) (valid : option (list bytes))
                        (stackbase : Z) (stack : bytes) (recs : list rec) : c06_out :=
   let a := x86 in
   match frames_pre below ctx valid stackbase stack with
   | None => out_none
   | Some (lookup, sp) =>
       let E := frames_env (real_callee a ctx valid) (mem_read 4 stackbase stack) lookup (map mkSF below) (mkSF None) in
-      match walk_frame (real_ops a) Debug E (build_sym recs (mkSym [] [] None)) (real_init a ctx valid) with
+      match wf (real_ops a) Debug E (build_sym recs (mkSym [] [] None)) (real_init a ctx valid) with
       | Ret (Some s) =>
           match post_real 0 a sp s with
           | Some s1 => Build_c06_out 1 None None (observe_real a s1) []
@@ -119,6 +133,8 @@ Definition run_frames7 (below : list (option Z)) (ctx : list (bytes * Z)) (valid
       | _ => out_panic
       end
   end.
+Definition run_frames7 := run_frames7_with (@walk_frame rstate).
+Definition run_frames7_src := run_frames7_with (@src_walk_frame rstate).
 
 Definition run_frames7_text (below : list (option Z)) (ctx : list (bytes * Z)) (valid : option (list bytes))
                             (stackbase : Z) (stack : bytes) (lines : list bytes) : c06_out :=
@@ -166,9 +182,54 @@ Definition walk_lookup (recs : list rec) (funcs : list (Z * Z * Z)) (eip : Z) : 
   | _, _ => None
   end.
 
-Definition run_walk7 (ctx : list (bytes * Z)) (stackbase : Z) (stack : bytes) (funcs : list (Z * Z * Z)) (recs : list rec)
+(* win_walk (WalkerFd.v) over the compiled evaluators: src_walk_win_framedata / g_walk_win_fpo instead of
+   walk_win_framedata / walk_win_fpo *)
+Definition src_win_xstep (mem : Z -> option Z) (below : list sframe) (callee : sframe) (r : xregs) (i : win_info) : option xregs :=
+  let E := frames_env (fun n => assoc n [(N_eip, x_eip r); (N_esp, x_esp r); (N_ebp, x_ebp r)]) mem 0 below callee in
+  let out := fun (o : mstate * bool) =>
+    match o with
+    | (s, true) =>
+        match m_regs s N_eip, m_regs s N_esp, m_regs s N_ebp with
+        | SetTo a, SetTo b, SetTo c => Some (mkX a b c)
+        | _, _, _ => None
+        end
+    | (_, false) => None
+    end in
+  match w_thing i with
+  | ProgramString e =>
+      match src_walk_win_framedata (mock_ops 4) Debug E i e m_init with
+      | Ret o => out o
+      | _ => None
+      end
+  | AllocatesBasePointer abp => out (g_walk_win_fpo (mock_ops 4) E i abp m_init)
+  end.
+
+Fixpoint walk_with (step : (Z -> option Z) -> list sframe -> sframe -> xregs -> win_info -> option xregs)
+                   (fuel : nat) (mem : Z -> option Z) (in_stack : Z -> bool) (lookup : Z -> option (win_info * option Z))
+                   (below : list sframe) (r : xregs) : list xregs :=
+  match fuel with
+  | O => []
+  | S k =>
+      if (match below with [] => true | _ :: _ => in_stack (x_esp r) end) then
+        match lookup (x_eip r) with
+        | None => []
+        | Some (i, ps) =>
+            match step mem below (mkSF ps) r i with
+            | Some r' =>
+                if (x_eip r' <? 4096) || (x_esp r' <=? x_esp r) then []
+                else r' :: walk_with step k mem in_stack lookup (below ++ [mkSF ps]) r'
+            | None => []
+            end
+        end
+      else []
+  end.
+
+Definition run_walk7_with (walk : nat -> (Z -> option Z) -> (Z -> bool) -> (Z -> option (win_info * option Z)) -> list sframe -> xregs -> list xregs)
+                     (ctx : list (bytes * Z)) (stackbase : Z) (stack : bytes) (funcs : list (Z * Z * Z)) (recs : list rec)
   : list xregs :=
   let g := fun n => match assoc n ctx with Some v => v | None => 0 end in
-  win_walk 64 (mem_read 4 stackbase stack)
+  walk 64%nat (mem_read 4 stackbase stack)
            (fun sp => match mem_read 1 stackbase stack sp with Some _ => true | None => false end)
            (walk_lookup recs funcs) [] (mkX (g N_eip) (g N_esp) (g N_ebp)).
+Definition run_walk7 := run_walk7_with win_walk.
+Definition run_walk7_src := run_walk7_with (walk_with src_win_xstep).
